@@ -70,6 +70,64 @@ def _merge_by_interpretation(r6, db, f, cls, coeffs, cfgname):
 
 
 
+def _term_values_by_interpretation(r2, db, f, cls, cfgname):
+    """Value of a non-resonant / resonant term decided by interpreting operator() on a symbolic term, once per case
+    (isz4 or not; isz1z2 or not, on / off resonance).  The resonance test itself is a case split: the comparison of
+    |Diff| with the Kronecker tolerance is answered by the case, any other ordering of symbolic values is not analysed."""
+    from pv.summ import Interp, Obj, Thrown
+    z1, z2, z3 = sp.symbols("z1 z2 z3")
+    P = list(sp.symbols("P1 P2 P3", real=True))
+    tol = sp.Symbol("tol", positive=True)
+    if cls == NR:
+        C = sp.Symbol("C")
+        for flagv, nm, want_ in ((True, "isz4", C / ((z1 - P[0]) * (z1 + z2 + z3 - P[0] - P[1] - P[2]) * (z3 - P[2]))),
+                                 (False, "!isz4", C / ((z1 - P[0]) * (z2 - P[1]) * (z3 - P[2])))):
+            this = Obj("NonResonantTerm", **{cls + "::Coeff": C, cls + "::Poles": list(P), cls + "::isz4": flagv, cls + "::Weight": 1})
+            ip = Interp(db, {})
+            try:
+                got = ip.call_fn(f, [z1, z2, z3], this=this)
+            except Thrown as t:
+                raise AnalysisBroken("operator() throws %s" % t.tt)
+            site = "%s::operator():%s" % (cls, nm)
+            if sp.simplify(sp.sympify(got) - want_) == 0:
+                r2.ok(site, f.loc(), "== %s (interpreted summary)" % want_, cfgname)
+            else:
+                r2.bad(site, f.loc(), "value is %s, expected %s (interpreted summary)" % (sp.simplify(got), want_), cfgname)
+        return
+    R, N = sp.symbols("R N")
+    for flagv, br in ((True, "z1z2"), (False, "z2z3")):
+        D = (z1 + z2 - P[0] - P[1]) if flagv else (z2 + z3 - P[1] - P[2])
+        results = {}
+        for resonant in (True, False):
+            def oracle(fr, i, op, a, b, D=D, resonant=resonant):
+                # |D| < tol is the case `resonant`
+                small, big = (a, b) if op in ("<", "<=") else (b, a)
+                if op in ("<", "<=", ">", ">=") and sp.simplify(small - sp.Abs(D)) == 0 and sp.simplify(big - tol) == 0:
+                    return resonant
+                if op in ("<", "<=", ">", ">=") and sp.simplify(big - sp.Abs(D)) == 0 and sp.simplify(small - tol) == 0:
+                    return not resonant
+                raise AnalysisBroken("the resonance decision compares %s with %s: not |%s| against the Kronecker tolerance (form not analysed)" % (a, b, D))
+            this = Obj("ResonantTerm", **{cls + "::ResCoeff": R, cls + "::NonResCoeff": N, cls + "::Poles": list(P), cls + "::isz1z2": flagv, cls + "::Weight": 1})
+            ip = Interp(db, {})
+            ip.oracle = oracle
+            try:
+                results[resonant] = sp.sympify(ip.call_fn(f, [z1, z2, z3, tol], this=this))
+            except Thrown as t:
+                raise AnalysisBroken("operator() throws %s" % t.tt)
+        den = (z1 - P[0]) * (z3 - P[2])
+        site = "%s::operator():%s" % (cls, br)
+        probs = []
+        if sp.simplify(results[True] - R / den) != 0:
+            probs.append("on resonance (|%s| below the tolerance) the value is %s, expected R/((z1-P1)(z3-P3))" % (D, sp.simplify(results[True])))
+        if sp.simplify(results[False] - N / D / den) != 0:
+            probs.append("off resonance the value is %s, expected N/((%s)(z1-P1)(z3-P3))" % (sp.simplify(results[False]), D))
+        if probs:
+            r2.bad(site, f.loc(), "; ".join(probs) + " (interpreted summary)", cfgname)
+        else:
+            r2.ok(site, f.loc(), "(|D|<tol ? R : N/D)/((z1-P1)(z3-P3)) with D = %s (interpreted summary)" % D, cfgname)
+
+
+
 def body(chk, db, cfgname):
     # ================================================================== R1
     r1 = chk.rule("C02-R1", "multi-term of Hafermann et al.: poles and the six coefficients handed to the term lists", "F6 formula", 6)
@@ -158,11 +216,12 @@ def body(chk, db, cfgname):
         Pp = [F.name_atom(("op", "[]", fld(NR + "::Poles"), ("lit", i)), "P%d" % (i + 1)) for i in range(3)]
         rets = [j for j, n in f.walk(f.body) if n["k"] == "return"]
         rk = ctx.key(f.nodes[rets[0]]["sub"])
-        if rk[0] != "cond" or rk[1] != fld(NR + "::isz4"):
-            raise AnalysisBroken("NonResonantTerm::operator(): value is not a conditional on isz4")
+        if len(rets) != 1 or rk[0] != "cond" or rk[1] != fld(NR + "::isz4"):
+            _term_values_by_interpretation(r2, db, f, NR, cfgname)
+            rk = None
         w4 = Cc / ((z1 - Pp[0]) * (z1 + z2 + z3 - Pp[0] - Pp[1] - Pp[2]) * (z3 - Pp[2]))
         w2 = Cc / ((z1 - Pp[0]) * (z2 - Pp[1]) * (z3 - Pp[2]))
-        for nm, got, want_ in (("isz4", F.conv(rk[2]), w4), ("!isz4", F.conv(rk[3]), w2)):
+        for nm, got, want_ in ((("isz4", F.conv(rk[2]), w4), ("!isz4", F.conv(rk[3]), w2)) if rk is not None else ()):
             site = "%s::operator():%s" % (NR, nm)
             if F.equal(got, want_):
                 r2.ok(site, f.loc(), "== %s" % want_, cfgname)
@@ -181,41 +240,49 @@ def body(chk, db, cfgname):
         Pp = [F.name_atom(("op", "[]", fld(RT + "::Poles"), ("lit", i)), "P%d" % (i + 1)) for i in range(3)]
         flag = fld(RT + "::isz1z2")
         seenb = set()
-        for j, n in f.walk(f.body):
-            if n["k"] != "return":
-                continue
-            fa = at.get(f.cfg.pos1(j), frozenset())
-            br = "z1z2" if ("true", flag) in fa else ("z2z3" if ("false", flag) in fa else None)
-            if br is None:
-                raise AnalysisBroken("ResonantTerm::operator(): a return is not under a test of isz1z2")
-            seenb.add(br)
-            rk = value_key(f, ctx, envs, n["sub"], j)
-            # (|Diff| < tol ? R : N/Diff) / ((z1-P1)(z3-P3))
-            site = "%s::operator():%s" % (RT, br)
-            if not (rk[0] == "op" and rk[1] == "/" and rk[2][0] == "cond"):
-                raise AnalysisBroken("ResonantTerm::operator(): value is not (cond)/(denominator)")
-            cnd, a_, b_ = rk[2][1], rk[2][2], rk[2][3]
-            den = F.conv(rk[3])
-            diff_want = (z1 + z2 - Pp[0] - Pp[1]) if br == "z1z2" else (z2 + z3 - Pp[1] - Pp[2])
-            probs = []
-            if not (cnd[0] == "op" and cnd[1] == "<" and cnd[2][0] == "call" and cnd[2][1] in ("abs", "std::abs") and cnd[3] == tol):
-                probs.append("the resonance decision is not |Diff| < KroneckerSymbolTolerance")
-            else:
-                d_ = F.conv(cnd[2][2])
-                if not F.equal(d_, diff_want):
-                    probs.append("resonance is decided on %s, expected %s" % (d_, diff_want))
-            if not F.equal(F.conv(a_), Rc):
-                probs.append("on resonance the value uses %s instead of ResCoeff" % F.conv(a_))
-            if not F.equal(F.conv(b_), Nc / diff_want):
-                probs.append("off resonance the value uses %s, expected NonResCoeff/(%s)" % (F.conv(b_), diff_want))
-            if not F.equal(den, (z1 - Pp[0]) * (z3 - Pp[2])):
-                probs.append("common denominator is %s, expected (z1-P1)(z3-P3)" % den)
-            if probs:
-                r2.bad(site, f.loc(j), "; ".join(probs), cfgname)
-            else:
-                r2.ok(site, f.loc(j), "(|D|<tol ? R : N/D)/((z1-P1)(z3-P3)) with D = %s" % diff_want, cfgname)
-        if seenb != {"z1z2", "z2z3"}:
-            r2.bad(RT + "::operator():branches", f.loc(), "only branches %s are evaluated" % sorted(seenb), cfgname)
+        _out = []
+        try:
+            for j, n in f.walk(f.body):
+                if n["k"] != "return":
+                    continue
+                fa = at.get(f.cfg.pos1(j), frozenset())
+                br = "z1z2" if ("true", flag) in fa else ("z2z3" if ("false", flag) in fa else None)
+                if br is None:
+                    raise AnalysisBroken("ResonantTerm::operator(): a return is not under a test of isz1z2")
+                seenb.add(br)
+                rk = value_key(f, ctx, envs, n["sub"], j)
+                # (|Diff| < tol ? R : N/Diff) / ((z1-P1)(z3-P3))
+                site = "%s::operator():%s" % (RT, br)
+                if not (rk[0] == "op" and rk[1] == "/" and rk[2][0] == "cond"):
+                    raise AnalysisBroken("ResonantTerm::operator(): value is not (cond)/(denominator)")
+                cnd, a_, b_ = rk[2][1], rk[2][2], rk[2][3]
+                den = F.conv(rk[3])
+                diff_want = (z1 + z2 - Pp[0] - Pp[1]) if br == "z1z2" else (z2 + z3 - Pp[1] - Pp[2])
+                probs = []
+                if not (cnd[0] == "op" and cnd[1] == "<" and cnd[2][0] == "call" and cnd[2][1] in ("abs", "std::abs") and cnd[3] == tol):
+                    probs.append("the resonance decision is not |Diff| < KroneckerSymbolTolerance")
+                else:
+                    d_ = F.conv(cnd[2][2])
+                    if not F.equal(d_, diff_want):
+                        probs.append("resonance is decided on %s, expected %s" % (d_, diff_want))
+                if not F.equal(F.conv(a_), Rc):
+                    probs.append("on resonance the value uses %s instead of ResCoeff" % F.conv(a_))
+                if not F.equal(F.conv(b_), Nc / diff_want):
+                    probs.append("off resonance the value uses %s, expected NonResCoeff/(%s)" % (F.conv(b_), diff_want))
+                if not F.equal(den, (z1 - Pp[0]) * (z3 - Pp[2])):
+                    probs.append("common denominator is %s, expected (z1-P1)(z3-P3)" % den)
+                if probs:
+                    _out.append(("bad", site, f.loc(j), "; ".join(probs), cfgname))
+                else:
+                    _out.append(("ok", site, f.loc(j), "(|D|<tol ? R : N/D)/((z1-P1)(z3-P3)) with D = %s" % diff_want, cfgname))
+            if seenb != {"z1z2", "z2z3"}:
+                _out.append(("bad", RT + "::operator():branches", f.loc(), "only branches %s are evaluated" % sorted(seenb), cfgname))
+        except AnalysisBroken:
+            # written in another form: decide the four cases by interpreting the body
+            _out = None
+            _term_values_by_interpretation(r2, db, f, RT, cfgname)
+        for st_, *rest_ in (_out or []):
+            (r2.ok if st_ == "ok" else r2.bad)(*rest_)
 
     # ================================================================== R3
     r3 = chk.rule("C02-R3", "world-stripe index typing in TwoParticleGFPart::compute: matrix element and the energies/weights passed to the multi-term", "F5+F6", 3)
